@@ -181,8 +181,12 @@ def _alarm(signum, frame):
 
 
 def guarded_build(files, order=None):
-    old = signal.signal(signal.SIGALRM, _alarm)
-    signal.setitimer(signal.ITIMER_REAL, WATCHDOG_S)
+    # the watchdog counts the CPU time of this process (a runaway regex burns CPU), so that a loaded machine cannot
+    # turn a slow but finite run into a reported hang; a generous wall-clock limit backs it up
+    old_v = signal.signal(signal.SIGVTALRM, _alarm)
+    old_r = signal.signal(signal.SIGALRM, _alarm)
+    signal.setitimer(signal.ITIMER_VIRTUAL, WATCHDOG_S)
+    signal.setitimer(signal.ITIMER_REAL, WATCHDOG_S * 20)
     t = time.time()
     try:
         if order:
@@ -192,8 +196,10 @@ def guarded_build(files, order=None):
     except Timeout:
         return None, time.time() - t, True
     finally:
+        signal.setitimer(signal.ITIMER_VIRTUAL, 0)
         signal.setitimer(signal.ITIMER_REAL, 0)
-        signal.signal(signal.SIGALRM, old)
+        signal.signal(signal.SIGVTALRM, old_v)
+        signal.signal(signal.SIGALRM, old_r)
         fordrun.FILE_ORDER = None
 
 
@@ -240,7 +246,7 @@ def run_case(st: Stats, case):
     feats = dict(kind=kind, detail=detail if kind == "grammar" else detail.split("@")[0].split("[")[0], position=pos)
     st.nontrivial.add(core.digest([kind, detail, pos]))
     if hung:
-        st.violation("hang", stratum, feats, inp, f"no result after {WATCHDOG_S}s", "terminates")
+        st.violation("hang", stratum, feats, inp, f"no result after {WATCHDOG_S}s of CPU time", "terminates")
         st.stratum(stratum, 1)
         return
     if r.error is not None:
